@@ -430,10 +430,11 @@ drain:
 	}
 	// Let the server drain its input: every connection ends when the client closes it
 	// (idle pipeline connections are closed after MaxIdleConnDuration) or the server did.
-	res.drained = srv.Wait(5 * time.Second)
-	if !srv.Shutdown(10*time.Second) && res.drained {
-		res.drained = false
-	}
+	srv.Wait(3 * time.Second)
+	// Whatever is still open (e.g. a pipeline connection kept alive by a request the writer never
+	// flushed) is closed now; closing takes the unread input atomically, so nothing can be
+	// transmitted afterwards and the log is complete.
+	res.drained = srv.Shutdown(10 * time.Second)
 	res.snap = srv.Snapshot()
 	mu.Lock()
 	res.calls = append([]*call(nil), res.calls...)
